@@ -388,10 +388,6 @@ func ruleSeparators(c *core.Ctx, rule string) {
 					in[v] = true
 				}
 			}
-			if len(bodyVs) == 0 {
-				o.Count(1)
-				return
-			}
 			// case entry: the body block reached by the true edge of this clause's type test
 			var entries []*core.V
 			for _, bv := range g.BranchVertices() {
@@ -400,6 +396,20 @@ func ruleSeparators(c *core.Ctx, rule string) {
 						entries = append(entries, e)
 					}
 				}
+			}
+			// statements of helpers that were folded into the case keep the positions
+			// of the helper: what belongs to the case is what its entry reaches
+			for _, e := range entries {
+				for v := range g.ReachFrom(e, true, nil) {
+					if v.AST != nil && !in[v] {
+						bodyVs = append(bodyVs, v)
+						in[v] = true
+					}
+				}
+			}
+			if len(bodyVs) == 0 {
+				o.Count(1)
+				return
 			}
 			if len(entries) == 0 {
 				core.Undecided("case %s: entry not found in control-flow graph", name)
